@@ -42,6 +42,8 @@ class Sched:
         self.switches = 0
         self.lock = threading.Lock()
         self._cur = 0
+        self.hits = {}                    # (tid, code, line) -> times this thread has reached this line in this execution
+        self._hit = 0
         self._costs = [[0] + [1] * k for k in range(self.n + 1)]
         self._costs = {len(c): c for c in self._costs}
 
@@ -90,6 +92,8 @@ class Sched:
             self._abort("horizon")
             raise Horizon()
         self.frames[tid] = frame
+        hk = (tid, frame.f_code, frame.f_lineno)
+        self._hit = self.hits[hk] = self.hits.get(hk, 0) + 1
         ctx = self.ctx
         i = len(ctx.choices)
         if i < ctx.plen and ctx.fast_ok:
@@ -108,7 +112,7 @@ class Sched:
             enabled = [tid] + [u for u in range(self.n) if u != tid and u not in self.finished]
             self._cur = tid
             try:
-                c = ctx.choose(len(enabled), state=self._state_cur,
+                c = ctx.choose(len(enabled), state=self._state_cur if ctx.ex.cache is not None else ("hit", self._hit),
                                costs=self._costs[len(enabled)], label=(tid, frame.f_lineno))
             except Pruned:
                 self._abort("pruned")
